@@ -4,6 +4,8 @@ calls against PrayerDayTrace."""
 import os
 from .common import *
 
+IMPURE = "a result is not a function of the call's arguments: it differs from the same call made on a fresh thread (state carried between calls) or from the same date's entry of the range / parallel range API"
+
 WHAT = {
     "c05": "schedule is not seven well-formed entries ordered Imsaak <= Fajr < Shurooq < Dhuhr < Asr < Maghrib < Isha around Dhuhr, or something is flagged extreme without a policy",
     "c07": "call did not return seven well-formed entries (panic, hang, wrong keys, no Dhuhr) in bounded time",
@@ -57,7 +59,9 @@ def validate_events(rep, pid, gen_args, what_key, heap="6g", max_violations=12):
     rep.transitions += tr
     rep.traces += matched
     rep.evaluations += n
+    if "session" in info:
+        rep.extra["session_effects"] = info["session"]
     for idx in bad:
         e = events[idx - 1]
-        rep.violation(WHAT[what_key], e, {"event_index": idx})
-    return info, events
+        rep.violation(IMPURE if e.get("ev") == "impure" else WHAT[what_key], e, {"event_index": idx})
+    return info, [e for e in events if e.get("ev") != "impure"]
